@@ -733,4 +733,48 @@ def C20_multi(c):
     run_multi(c, MULTI_NONLOG, build, ["InvNoStall", "InvNoLostWakeup", "InvAtMostOncePerListener", "InvNoInvention", "NoPanic"], procs=4, expect_stalls=True)
 
 
-CHECKS = {"C05": C05, "C09": C09, "C03": C03, "C10": C10, "C17": C17, "C04": C04, "C07": C07, "C08": C08, "C16": C16, "C20": C20, "C02": C02, "C13": C13, "C18": C18, "C15": C15, "C01": C01}
+def hscn(id_, pre, threads, explore):
+    return {"id": id_, "sut": "ogre_handles", "n": 4, "s": 1, "origin": 0, "pre": pre, "record_ops": True, "max_steps": 2000,
+            "threads": [{"name": "t%d" % i, "ops": ops} for i, ops in enumerate(threads)], "explore": explore}
+
+
+def C14(c):
+    quick = c.tier == "quick"
+    names = ['"a"', '"b"', '"c"', '"d"', '"e"']
+    inv = ["InvNotFreedWhileHeld", "InvCtlNotUsedAfterFree", "InvRefCount", "InvCounter", "InvFreedAtEnd"]
+    for script in ("Script_3t", "Script_3t2", "Script_hand"):
+        c.mc("MC_OgreArc", script, {"Procs": [0, 1, 2], "Names": names}, subst={"Script": script}, invariants=inv,
+             required_actions=["MCCall", "CloneFA", "DropFS"] + (["DropDealloc"] if script == "Script_3t" else []), timeout=1200, workers=8)
+    H = lambda name, **kw: dict({"op": name, "v": 0, "i": 0}, **kw)
+    mr, rr = (400, 300) if quick else (8000, 6000)
+    scns = []
+    # two initial handles, cloned / dropped / dereferenced / counted on three threads
+    pre2 = [H("new2", v=7, to="a", to2="b")]
+    th1 = [[H("clone", **{"from": "a", "to": "c"}), H("deref", h="c"), H("drop", h="a"), H("refs", h="c"), H("drop", h="c")],
+           [H("deref", h="b"), H("clone", **{"from": "b", "to": "d"}), H("drop", h="d"), H("drop", h="b")]]
+    th2 = [[H("incr", **{"from": "a", "tos": ["c", "d"]}), H("drop", h="c"), H("deref", h="d"), H("drop", h="a"), H("drop", h="d")],
+           [H("refs", h="b"), H("clone", **{"from": "b", "to": "e"}), H("drop", h="b")],
+           [H("nop")]]
+    # a unique handle converted into a shared one, then shared
+    pre3 = [H("newu", v=9, to="a")]
+    th3 = [[H("deref", h="a"), H("into_arc", h="a"), H("refs", h="a"), H("clone", **{"from": "a", "to": "b"}), H("drop", h="a"), H("deref", h="b"), H("drop", h="b")]]
+    th4 = [[H("deref", h="a"), H("drop", h="a")]]
+    for nm, pre, th in (("t1", pre2, th1), ("t2", pre2, th2), ("u1", pre3, th3), ("u2", pre3, th4)):
+        scns.append(hscn("handles_%s_dfs" % nm, pre, th, dfs(3, mr)))
+        if len(th) > 1:
+            scns.append(hscn("handles_%s_rnd" % nm, pre, th, rnd(rr, c.seed * 100 + len(nm))))
+    consts = {"Procs": [0, 1, 2], "Names": names}
+    trace, runs, v = c.conform(scns, "ogre_handles", "Trace_OgreArc", consts)
+    # every verdict of this trace spec is an L1 rule; a mismatch means the code no longer follows the L2 counter protocol (drift)
+    for x in v["violations"]:
+        s2 = dict([s for s in scns if s["id"] == x["run"]["scn"]][0])
+        s2["explore"] = {"mode": "replay", "schedules": [x["run"]["choices"]]}
+        c.violation("%s violated by the real code (scenario %s, run %d)" % (x["inv"], x["run"]["scn"], x["run"]["run"]),
+                    {"scenario": s2, "run": x["run"], "events": extract_run(trace, x["run"]), "module": "Trace_OgreArc", "consts": {k: tla_val(q) for k, q in consts.items()}, "invariant": x["inv"]})
+    if v["mismatches"]:
+        c.drift.append("ogre_handles: %d run(s) are not behaviours of OgreArc (first unmatched event: %s)" % (len(v["mismatches"]), json.dumps(v["mismatches"][0]["event"])[:300]))
+    sample_run(c, trace, runs, scns, "validated execution of the real OgreArc / OgreUnique handles")
+    c.assumptions.append("one pooled value per run; destruction is observed through the instrumented payload (drop counter, alive marker) and the wrapper allocator")
+
+
+CHECKS = {"C14": C14, "C05": C05, "C09": C09, "C03": C03, "C10": C10, "C17": C17, "C04": C04, "C07": C07, "C08": C08, "C16": C16, "C20": C20, "C02": C02, "C13": C13, "C18": C18, "C15": C15, "C01": C01}
